@@ -27,6 +27,20 @@ CHECKS = {
     ),
 }
 
+CHECKS["C02"] = dict(
+    category="proof",
+    text=("Lean theorems over Model/Markers.lean (the mesher's marker encoder and the three solvers' decoders): vertex and edge "
+          "codec round-trip for every (property, conductor) pair under the explicit guard prop+2 < 0x10000 with a collision "
+          "witness outside it, Triangle's own markers decode to 'none', region attribute = solver label index for every "
+          "hole/label order, name lookup soundness. Tied to the code on every run: encoder via the .poly the real fmesher "
+          "hands to Triangle, decoders via an in-process harness around ESolver/HSolver/FSolver::LoadMesh on real meshes and on "
+          "synthetic re-markings spanning the codec range. The geometric half of the property (elements in the region of their "
+          "label, marked edges/vertices exactly on their entities) is decided per run by a geometric oracle on the real mesh; "
+          "Triangle's marker propagation is validated, not proved."),
+    design_ref="DESIGN.md section 3, C02",
+    technique="Lean 4 proof (codec round-trip, omega) + model/implementation correspondence + geometric oracle on real mesher output",
+)
+
 NOT_YET = "check not built yet in this round; planned per DESIGN.md section 3 (Lean model + correspondence)"
 
 
